@@ -248,6 +248,7 @@ def work(spec):
         app, log = obj
         probs, legs, model = judge_state(om, hist, app)
         for code, leg in legs:
+            res['outcomes'].add(f'probe -> {code} {leg or ""}'.strip())
             c['probes'] += 1
             if leg:
                 c[leg] += 1
